@@ -1845,7 +1845,7 @@ FLOWFUNCS = [
     # Content-Length text test, the framing decision (for_response, translated above) recorded in state.reader.  The two parsers' results
     # are values of the model's types; what is asked of a response are the model's readings of the http accessors (resp_* in Gen2.v);
     # the header_lookup closure must have EXACTLY the text below to be replaced by resp_text_lookup (otherwise: not translated).
-    dict(coq="gen_call_try_response", file="src/client/call.rs", impl=r"impl<B>\s+Call<RecvResponse,\s*B>", rust="try_response",
+    dict(coq="gen_call_try_response", file="src/client/call.rs", impl=r"impl<B>\s+Call<RecvResponse,\s*B>", rust="try_response", errst=True,
          subst=[(r"try_parse_response::<MAX_RESPONSE_HEADERS>\(input\)", "parsed"),
                 (r"try_parse_partial_response::<MAX_RESPONSE_HEADERS>\(input\)", "partial"),
                 (r"r\.status\(\)\.is_redirection\(\)", "resp_is_redirection(r)"),
